@@ -17,7 +17,8 @@ RULE = (
     "duplication / swap / truncation / colon removal / stray insertions; well-formed descriptions) x every combination of "
     "the 15 parse-relevant settings (wait_to_parse excluded) rendered as config text in varying syntax x entry points "
     "{PLSSDesc init with text config / Config object, parse(**kw) committed and not, config assignment then parse, "
-    "Tract init, Tract.parse(**kw), preprocess, find_twprge, find_sec}. A second sub-check feeds invalid arguments and "
+    "Tract init, Tract.parse(**kw), preprocess, find_twprge, find_sec}, each followed by 0..3 further calls on the same object "
+    "(dry-run parse, parse, parse_tracts with and without keywords, dry-run parse of every tract). A second sub-check feeds invalid arguments and "
     "requires exactly the documented exception class. Non-trivial: text has a Twp/Rge-like and a section-like token, or a "
     "non-default configuration. Distinct = distinct (text, config text, entry)."
 )
@@ -47,7 +48,27 @@ def oracle_plss(c):
     find_sec(c["text"]["text"])
     d.pretty_desc()
     d.quick_desc()
+    # the same object may be parsed again, as a dry run or for good, and its tracts re-parsed: none of that may raise either
+    for step in c.get("follow", ()):
+        if step == "dry_run":
+            d.parse(commit=False)
+        elif step == "parse":
+            d.parse()
+        elif step == "parse_tracts":
+            d.parse_tracts()
+        elif step == "parse_tracts_kw":
+            d.parse_tracts(clean_qq=True, qq_depth_min=1)
+        elif step == "tract_dry_run":
+            for t in d.tracts:
+                t.parse(commit=False)
+        if len(d.tracts) < 1:
+            fails.append(Failure("no_tract_after_follow_up", f"after {step}: no tract left for {c['text']['text']!r}", **parsing.render(c)))
+            break
     return fails
+
+
+FOLLOW = st.lists(st.sampled_from(["dry_run", "parse", "parse_tracts", "parse_tracts_kw", "tract_dry_run"]), max_size=3)
+PLSS_CASE = st.fixed_dictionaries({**parsing.CASE_FIELDS, "follow": FOLLOW})
 
 
 TRACT_CASE = st.fixed_dictionaries({
@@ -55,6 +76,7 @@ TRACT_CASE = st.fixed_dictionaries({
     "cfg": configs.config_values(exclude=("wait_to_parse", "layout", "segment", "sec_within", "sec_colon_required", "sec_colon_cautious")),
     "style": configs.STYLE,
     "entry": st.sampled_from(["init", "parse_kw", "parse_kw_nocommit", "init_unparsed"]),
+    "follow": st.lists(st.sampled_from(["dry_run", "parse", "parse_kw"]), max_size=3),
 })
 
 
@@ -73,6 +95,14 @@ def oracle_tract(c):
         t.parse(commit=(c["entry"] == "parse_kw"), **kw)
     t.quick_desc()
     t.to_dict("trs", "desc", "lots", "qqs", "ilots", "lots_qqs")
+    for step in c.get("follow", ()):
+        if step == "dry_run":
+            t.parse(commit=False)
+        elif step == "parse":
+            t.parse()
+        else:
+            t.parse(**configs.to_kwargs(c["cfg"], parsing.TRACT_PARSE_KW))
+    t.to_dict("trs", "desc", "lots", "qqs", "ilots", "lots_qqs", "w_flags", "e_flags")
     return []
 
 
@@ -158,7 +188,7 @@ BAD_CASE = st.fixed_dictionaries({"text": soup.ANY_TEXT, "bad": st.sampled_from(
 MASTER_CASE = st.fixed_dictionaries({"text": soup.ANY_TEXT, "which": st.sampled_from(["ns", "ew"])})
 
 SUBS = [
-    Sub("plssdesc", oracle_plss, strategy=lambda tier: parsing.CASE, nontrivial=nontrivial, classes=parsing.text_classes,
+    Sub("plssdesc", oracle_plss, strategy=lambda tier: PLSS_CASE, nontrivial=nontrivial, classes=parsing.text_classes,
         render=parsing.render, n={"quick": 1500, "thorough": 12000}, shards={"quick": 8, "thorough": 16}, text_keys=("text",),
         essential=("gen=soup", "gen=raw", "gen=damaged", "gen=wellformed", "cfg=segment", "cfg=sec_within", "cfg=sec_colon_required",
                    "cfg=sec_colon_cautious", "cfg=ocr_scrub", "cfg=layout") + tuple(f"entry={e}" for e in set(parsing.ENTRIES))),
